@@ -9,6 +9,7 @@ import (
 	"errors"
 	"fmt"
 	"net"
+	"net/http"
 	"net/http/httptest"
 	"sync"
 	"sync/atomic"
@@ -240,8 +241,16 @@ func (r *Rig) NewClient(id string) (*RigClient, error) {
 }
 
 func (r *Rig) NewHTTPClient(id string) (*RigClient, error) {
+	return r.NewHTTPClientVia(id, r.Srv.Listener.Addr().String(), nil)
+}
+
+// NewHTTPClientVia creates an http client for addr (e.g. the proxy) with its own connection pool.
+func (r *Rig) NewHTTPClientVia(id, addr string, hcl *http.Client) (*RigClient, error) {
 	c := &RigClient{ID: id, HTTP: true}
 	var opts []jsonrpc.Option
+	if hcl != nil {
+		opts = append(opts, jsonrpc.WithHTTPClient(hcl))
+	}
 	if r.Opts.WithErrors {
 		opts = append(opts, jsonrpc.WithErrors(jsonrpc.NewErrors()))
 	}
@@ -252,7 +261,7 @@ func (r *Rig) NewHTTPClient(id string) (*RigClient, error) {
 		Retry  func(ctx context.Context, tok string, plan Plan) (Result, error) `retry:"true" rpc_method:"Tok.Call"`
 		NoCtx  func(tok string, plan Plan) (Result, error)                      `rpc_method:"Tok.Call"`
 	}
-	closer, err := jsonrpc.NewMergeClient(context.Background(), "http://"+r.Srv.Listener.Addr().String(), "Tok", []interface{}{&hc}, nil, opts...)
+	closer, err := jsonrpc.NewMergeClient(context.Background(), "http://"+addr, "Tok", []interface{}{&hc}, nil, opts...)
 	if err != nil {
 		return nil, err
 	}
